@@ -141,7 +141,7 @@ def run_uboot(case):
         except Exception as e:  # noqa
             res = ["exc", clock.t, type(e).__name__, str(e)[:100]]
     case["_stages"] = [[[t, d.hex()] for t, d in st] for st in io.stage_log]
-    return [res, [[t, b] for t, b, _ in io.wlog], power.ev, first, bootlog, [[t, b.hex(), s.hex()] for t, b, s in io.wlog], sim.lines]
+    return [res, [[t, b] for t, b, _ in io.wlog], power.ev, first, bootlog, [[t, b.hex(), C18.seen_summary(s)] for t, b, s in io.wlog], sim.lines]
 
 
 def ucfg_coq(cfg):
@@ -189,8 +189,8 @@ class UBootSuite(Suite):
             fails.append(f"bring-up raised {res[2:]!r}")
         # the autoboot keys are sent only after the countdown has been seen
         if cfg["autoboot"]:
-            for t, bhex, seenhex in writes:
-                if bytes.fromhex(bhex) == cfg["keys"].encode() and b"autoboot:" not in bytes.fromhex(seenhex):
+            for t, bhex, seen in writes:
+                if bytes.fromhex(bhex) == cfg["keys"].encode() and not seen["auto"]:
                     fails.append(f"the autoboot keys were sent at t={t} before any autoboot prompt was received")
                     break
         if res[0] == "ok":
@@ -215,7 +215,7 @@ class UBootSuite(Suite):
         return None
 
     def gen(self, tier, rng):
-        for _ in range(1200 if tier == "quick" else 10000):
+        for _ in range(1200 if tier == "quick" else 5000):
             autoboot = rng.random() < 0.7
             countdown = autoboot and rng.random() < 0.9
             cfg = {"autoboot": autoboot, "countdown": countdown, "keys": rng.choice(["\r", "\r", " ", "\x7f\x7f\x7f\x7f"]) if autoboot else "",
@@ -237,4 +237,152 @@ class UBootSuite(Suite):
             yield {"cfg": cfg, "seed": rng.randrange(1 << 30)}
 
 
-SUITES = [UBootSuite()]
+# ------------------------------------------------------------------ the whole chain: board -> U-Boot -> Linux
+class FullSim:
+    """U-Boot console until the `boot` command, then the Linux console"""
+
+    def __init__(self, ucfg, lcfg, rng):
+        self.ub = UBootBootSim(ucfg, rng)
+        self.lx = C18.BootSim(dict(lcfg, kmsg=[m.encode() for m in lcfg["kmsg"]], garbage=lcfg["garbage"].encode(),
+                                   clutter=lcfg["clutter"].encode()), rng)
+        self.phase = "uboot"
+        self.boot_at = None
+        self.clock = None
+        self.lines = []
+
+    def initial(self):
+        return self.ub.initial()
+
+    def react(self, line):
+        if self.phase == "uboot":
+            if self.ub.state == "shell" and line == b"boot":
+                self.phase = "linux"
+                self.boot_at = self.clock.t
+                return [[0, b"boot\r\n## Booting kernel ...\r\n"]] + self.lx.initial()
+            return self.ub.react(line)
+        return self.lx.react(line)
+
+    def intr(self):
+        return self.ub.intr() if self.phase == "uboot" else []
+
+
+def run_full(case):
+    ucfg, lcfg = case["ucfg"], case["cfg"]
+    rng = random.Random(case["seed"])
+    clock = sc.VirtualClock()
+    sim = FullSim(ucfg, lcfg, rng)
+    sim.clock = clock
+    io = URecIO(sim, clock)
+    power = C18.PowerLog(clock)
+    res, first, bootlog, ubootlog = None, None, None, None
+    with sc.patched_clock(clock), sc.quiet_log():
+        class Conn(connector.Connector):
+            @contextlib.contextmanager
+            def _connect(self):
+                yield channel.Channel(io)
+
+            def clone(self):
+                raise NotImplementedError()
+
+        class Power(board.PowerControl):
+            def poweron(self):
+                power.ev.append(["on", clock.t])
+
+            def poweroff(self):
+                power.ev.append(["off", clock.t])
+
+        Brd = type("SimBoard", (Conn, Power, board.Board), {"name": "sim-board"})
+        ubases = [board.Connector] + ([board.UBootAutobootIntercept] if ucfg["autoboot"] else []) + [board.UBootShell]
+        UB = type("SimUB", tuple(ubases), {"name": "sim-ub", "prompt": ucfg["prompt"],
+                                           "boot_timeout": None if ucfg["boot_timeout"] is None else ucfg["boot_timeout"] / U})
+        lbases = [board.LinuxUbootConnector] + ([board.AskfirstInitializer] if lcfg["askfirst"] else []) + [board.LinuxBootLogin, C18.linux.Bash]
+        Lnx = type("SimLnx", tuple(lbases), {"name": "sim-lnx", "uboot": UB, "username": lcfg["user"], "password": lcfg["password"],
+                                             "boot_timeout": None if lcfg["boot_timeout"] is None else lcfg["boot_timeout"] / U,
+                                             "login_delay": lcfg["login_delay"] / U,
+                                             "no_password_timeout": None if lcfg["no_pw_timeout"] is None else lcfg["no_pw_timeout"] / U})
+        try:
+            with Brd() as b:
+                with Lnx(b) as lnx:
+                    res = ["ok", clock.t]
+                    bootlog = getattr(lnx, "bootlog", None)
+                    first = list(lnx.exec("echo", "first command"))
+        except TimeoutError as e:
+            res = ["timeout", clock.t, str(e)]
+        except cc.Blocked:
+            res = ["blocked", clock.t]
+        except Exception as e:  # noqa
+            res = ["exc", clock.t, type(e).__name__, str(e)[:100]]
+    return [res, power.ev, first, bootlog, [[t, b.hex(), C18.seen_summary(s)] for t, b, s in io.wlog], sim.boot_at]
+
+
+class FullStackSuite(Suite):
+    """board machine -> U-Boot machine (autoboot intercept, prompt poll) -> `boot` -> LinuxUbootConnector + login + bash"""
+    name = "fullstack"
+    model_fn = None
+
+    def run(self, case):
+        return run_full(case)
+
+    def oracle(self, case, obs):
+        res, power, first, bootlog, writes, boot_at = obs
+        lcfg = case["cfg"]
+        fails = []
+        if not power or power[0][0] != "on" or power[-1][0] != "off" or len(power) != 2:
+            fails.append(f"power sequence {power!r}")
+        user = lcfg["user"].encode() + b"\r"
+        pw = (lcfg["password"] or "").encode() + b"\r"
+        for t, bhex, seen in writes:
+            b = bytes.fromhex(bhex)
+            if b == user and not seen["login"]:
+                fails.append(f"the user name was sent at t={t} before any login prompt")
+            if lcfg["password"] and b == pw and not seen["pw"]:
+                fails.append(f"the password was sent at t={t} before any password prompt")
+        T = lcfg["boot_timeout"]
+        if T is not None and boot_at is not None:
+            if res[0] == "timeout" and res[1] > boot_at + T:
+                fails.append(f"Linux stage: TimeoutError at t={res[1] / U:.3f}s, boot command at {boot_at / U:.3f}s, boot_timeout {T / U:.3f}s")
+            login_done = any(bytes.fromhex(bhex) == user for _, bhex, _ in writes)
+            if res[0] == "blocked" and not login_done:
+                # (after the login the documented scope of boot_timeout -- reaching the login prompt -- has ended;
+                #  the shell initialisation has no deadline of its own)
+                fails.append("bring-up waits for ever although a boot timeout is configured")
+        if res[0] == "exc":
+            fails.append(f"bring-up raised {res[2:]!r}")
+        if res[0] == "ok":
+            if first != [0, "first command\n"]:
+                fails.append(f"the first command on the booted Linux returned {first!r}")
+            if bootlog is None or "login: " not in bootlog or "Booting kernel" not in bootlog:
+                fails.append(f"the Linux bootlog does not hold the console output from the boot command to the login: {bootlog!r:.160}")
+        return fails
+
+    def nontrivial(self, case, obs):
+        return True
+
+    def klass(self, case, obs):
+        return f"{obs[0][0]}:{'ask' if case['cfg']['askfirst'] else 'plain'}:{case['cfg']['stall']}"
+
+    def finding_key(self, case, obs, failure):
+        # answers to the ^C polls of the U-Boot stage that arrive late desynchronise everything after it
+        if any(bytes.fromhex(b) == b"\x03" for _, b, _ in obs[4]):
+            return "C18:uboot-poll-intr-extra-prompt"
+        return None
+
+    def gen(self, tier, rng):
+        for _ in range(300 if tier == "quick" else 1500):
+            lcfg = C18.rand_cfg(rng, tier)
+            lcfg["stall"] = rng.choice([None, None, None, "boot", "password"])
+            if lcfg["password"] == "":
+                lcfg["password"] = "pw"
+            if lcfg["stall"] is not None and lcfg["boot_timeout"] is None:
+                lcfg["boot_timeout"] = 5120
+            if lcfg["password"] and not lcfg["pw_prompt"] and lcfg["no_pw_timeout"] is None and lcfg["boot_timeout"] is None:
+                lcfg["no_pw_timeout"] = 1024
+            autoboot = rng.random() < 0.7
+            ucfg = {"autoboot": autoboot, "countdown": autoboot, "keys": "\r" if autoboot else "", "prompt": rng.choice(["=> ", "U-Boot> "]),
+                    "noise": "", "boot_delay": rng.choice([0, 300]), "d_count": rng.choice([0, 512]), "d_prompt": rng.choice([0, 100]),
+                    "d_intr": 0, "need_intr": 0 if autoboot else rng.choice([1, 2]), "prompt_at_start": False, "stall": None,
+                    "frag": lcfg["frag"], "gap": lcfg["gap"], "boot_timeout": rng.choice([None, 20480])}
+            yield {"ucfg": ucfg, "cfg": lcfg, "seed": rng.randrange(1 << 30)}
+
+
+SUITES = [UBootSuite(), FullStackSuite()]
